@@ -20,7 +20,6 @@ Open Scope list_scope.
 
 FINDINGS = {
     'knots': 'S9a-info-drops-edge-knots',
-    'tensor_by': 'S9b-tensor-info-drops-by',
     'hidden': 'S9c-info-drops-hidden-factor-attrs',
     'shadow': 'S9d-kwarg-shadows-assignment',
     'dropped': 'S9e-set-params-plural-dropped-auto-terms',
@@ -152,9 +151,7 @@ def term_flags(t):
         fl = set()
         for m in t._terms:
             fl |= simple_flags(m)
-        if t.by is not None:
-            fl.add('tensor_by')
-        return fl
+        return fl          # a tensor term's `by` is carried through info / build_from_info (repaired S9b): no flag
     return simple_flags(t)
 
 
@@ -446,10 +443,21 @@ def info_cases(res, rng, count):
         nf = rng.randint(2, 4)
         factor_feats = tuple(j for j in range(nf) if rng.random() < 0.3)
         specs = gen_terms.gen_termlist(rng, nf, factor_feats, dyadic=True, max_terms=3, allow_constraints=True, max_n=8)
+        if nf >= 3 and rng.random() < 0.35:          # make sure tensor terms are well represented ...
+            te_spec = gen_terms.gen_tensor(rng, nf, factor_feats, dyadic=True, allow_constraints=True)
+            if te_spec is not None:
+                specs.insert(rng.randint(0, len(specs)), te_spec)
         for s in specs:
             if s['kind'] == 's' and rng.random() < 0.25:
                 a = rng.uniform(-5, 0)
                 s['edge_knots'] = [a, a + rng.uniform(1, 8)]
+            if s['kind'] == 'te' and s.get('by') is None and rng.random() < 0.6:      # ... and that many carry a by-variable
+                used = {m['feature'] for m in s['margins']}
+                rest = [j for j in range(nf) if j not in used and j not in factor_feats]
+                if rest:
+                    s['by'] = rng.choice(rest)
+            if s['kind'] == 'te':
+                res.count('info_tensor:%s' % ('by' if s.get('by') is not None else 'no-by'))
         try:
             tl = gen_terms.build_termlist(specs)
         except Exception as e:
@@ -501,7 +509,7 @@ def info_cases(res, rng, count):
                 diff = [a[0] for a, b in zip(ref, got) if a != b] or ['outcome']
                 finding = None
                 if vname == 'build_from_info':
-                    for fl in ('knots', 'tensor_by', 'hidden'):
+                    for fl in ('knots', 'hidden'):
                         if fl in flags:
                             finding = FINDINGS[fl]
                             break
@@ -528,7 +536,7 @@ def info_cases(res, rng, count):
             if got != ref:
                 finding = None
                 if vname == 'build_from_info':
-                    for fl in ('knots', 'tensor_by', 'hidden'):
+                    for fl in ('knots', 'hidden'):
                         if fl in flags:
                             finding = FINDINGS[fl]
                             break
@@ -768,7 +776,7 @@ def run(res):
                 'plural assignments / reads / compile, executed on real pyGAM objects and on the Coq model (vm_compute): info of every '
                 'term, exception kind and plural read-backs must agree exactly; (b) the same at model level (constructor keywords, '
                 'attribute assignment, set_params, fit-time hand-over); (c) info/build_from_info on terms in perturbed states '
-                '(custom knots, tensor by, plural assignment reaching hidden attributes, earlier compile) compared with the model and, '
+                '(custom knots, tensor terms with a by-variable, plural assignment reaching hidden attributes, earlier compile) compared with the model and, '
                 'behaviourally (bitwise equal build_columns / build_penalties / build_constraints on random data), original vs '
                 'rebuilt vs deepcopy vs pickle; (d) set_params accept/ignore decisions vs the model; (e) the property statement '
                 'probed directly (object identity for order/de-duplication, read back as set, in order, wrong length rejected). '
